@@ -1,6 +1,7 @@
 package main
 
 import (
+	"go/token"
 	"strings"
 
 	"golang.org/x/tools/go/ssa"
@@ -52,7 +53,9 @@ func runC10(p *Program, r *Report) {
 			}
 			objRoots := Origins(ga[3], nil)
 			// objects literal elements: look into the slice cell and struct fields
-			objRoots = append(objRoots, deepRoots(ga[3])...)
+			for _, ov := range fieldSources(ga[3]) {
+				objRoots = append(objRoots, deepRoots(ov)...)
+			}
 			sameK := false
 			kc := callRootInstrs(objRoots, fiberCtx+".Params", "key")
 			for c := range callRootInstrs(ar, fiberCtx+".Params", "key") {
@@ -324,12 +327,18 @@ func c10Suspend(p *Program, r *Report) {
 			cut = append(cut, ce.fails)
 		}
 	}
-	ok := lockConsulted
+	// the paths on which status is Suspended: every test of status against Suspended takes its holds edge, every
+	// test against Enabled its fails edge (the tests may be repeated: a guard first, the value to store later).
+	// None of them may reach the store without passing the lock test.
 	for _, s := range susp {
-		if reachableFromEdge(f, s.holds, cut)[store.Block()] {
-			ok = false
+		cut = append(cut, s.fails)
+	}
+	for _, ce := range condEdgesOf(f) {
+		if ce.atoms["param:status"] && ce.atoms[`const:"Enabled"`] && ce.isEqNeq {
+			cut = append(cut, ce.holds)
 		}
 	}
+	ok := lockConsulted && !reachable(f, nil, cut)[store.Block()]
 	r.Check(ok, "R-C10-3", key, p.Pos(store.Pos()), "suspend stored only when no enabled lock configuration exists", "versioning can be suspended on a bucket whose object-lock configuration is enabled (the store is reachable from the Suspended case without passing the lock test)")
 }
 
@@ -436,39 +445,70 @@ func c10Bypass(p *Program, r *Report, hs []*ssa.Function) {
 		n++
 		f := bc.fn
 		bv := callArgs(bc.call)[4]
-		// all constant-true origins of bypass must be stores/phis reachable only via VerifyBucketPolicy(Bypass) success
+		// bypass may be true only with the bypass policy verdict: every value that can flow into the argument is
+		// the constant false, the verdict itself (VerifyBucketPolicy(Bypass...) == nil), a value known false on the
+		// edge it arrives by, or arrives only behind the verdict's success edge (or the root account's edge)
 		var pol []edge
+		verdict := map[ssa.Value]bool{}
 		for _, c := range callsTo(f, fnVerifyBucketPol) {
 			for _, a := range callArgs(c) {
 				if s, ok := constString(a); ok && s == "s3:BypassGovernanceRetention" {
 					pol = append(pol, successEdges(c)...)
-				}
-			}
-		}
-		ok := len(pol) > 0
-		detail := "no VerifyBucketPolicy(BypassGovernanceRetention) in the handler"
-		var hdr []edge
-		for _, ce := range condEdgesOf(f) {
-			if ce.atoms["arg:X-Amz-Bypass-Governance-Retention"] || ce.atoms["call:strings.EqualFold"] {
-				hdr = append(hdr, ce.holds)
-			}
-		}
-		for _, site := range trueSites(bv) {
-			cut := append([]edge{}, pol...)
-			if reachable(f, nil, cut)[site] {
-				// reachable without the policy verdict: allowed only for root (IsRoot edge)? no: root also needs no policy; check frozen: isRoot edge
-				var cut2 []edge
-				cut2 = append(cut2, pol...)
-				for _, ce := range condEdgesOf(f) {
-					if ce.atoms["call:"+fiberCtx+".Locals"] && ce.atoms["arg:isRoot"] {
-						cut2 = append(cut2, ce.holds)
+					for _, ev := range errValues(c) {
+						for _, al := range aliasesOf(ev) {
+							verdict[al] = true
+						}
 					}
 				}
-				if reachable(f, nil, cut2)[site] {
-					ok = false
-					detail = "bypass can become true without the bypass policy verdict"
+			}
+		}
+		cut2 := append([]edge{}, pol...)
+		for _, ce := range condEdgesOf(f) {
+			if ce.atoms["call:"+fiberCtx+".Locals"] && ce.atoms["arg:isRoot"] {
+				cut2 = append(cut2, ce.holds)
+			}
+		}
+		ok := len(verdict) > 0
+		detail := "no VerifyBucketPolicy(BypassGovernanceRetention) in the handler"
+		behind := reachable(f, nil, cut2)
+		for _, lf := range valueLeaves(bv, bc.call.Block()) {
+			if b, isC := constBool(lf.val); isC && !b {
+				continue
+			}
+			if bo, isBO := lf.val.(*ssa.BinOp); isBO && bo.Op == token.EQL {
+				if (verdict[bo.X] && isNilConst(bo.Y)) || (verdict[bo.Y] && isNilConst(bo.X)) {
+					continue
 				}
 			}
+			if _, isC := constBool(lf.val); !isC && truthOnEdge(lf.val, lf.from, lf.to) < 0 {
+				continue
+			}
+			if lf.from != nil && !behind[lf.from] {
+				continue
+			}
+			// the edge it arrives by is itself a verdict (or root) edge
+			onCut := false
+			if lf.from != nil && lf.to != nil {
+				all := true
+				for i, sc := range lf.from.Succs {
+					if sc != lf.to {
+						continue
+					}
+					in := false
+					for _, e := range cut2 {
+						if e.from == lf.from && e.succ == i {
+							in = true
+						}
+					}
+					all = all && in
+				}
+				onCut = all
+			}
+			if onCut {
+				continue
+			}
+			ok = false
+			detail = "bypass can become true without the bypass policy verdict"
 		}
 		r.Check(ok, "R-C10-5", bc.key+".bypass", p.Pos(bc.call.Pos()), "bypass true only behind VerifyBucketPolicy(BypassGovernanceRetention)", detail)
 	}
@@ -548,6 +588,12 @@ func controlsC10() []Control {
 			New: "\t\tres, err := c.be.CopyObject(", Expect: "CopyObject"},
 		{Name: "PutObjectRetention: COMPLIANCE case falls through", Rule: "R-C10-2", File: "backend/posix/posix.go",
 			Old: "\tcase types.ObjectLockRetentionModeCompliance:\n\t\treturn s3err.GetAPIError(s3err.ErrMethodNotAllowed)\n\t// To override governance", New: "\tcase types.ObjectLockRetentionModeCompliance:\n\t\tif !bypass {\n\t\t\treturn s3err.GetAPIError(s3err.ErrMethodNotAllowed)\n\t\t}\n\t// To override governance", Expect: "COMPLIANCE"},
+		{Name: "PutObjectRetention handler: bypass kept when the policy denies", Rule: "R-C10-5", File: "s3api/controllers/base.go",
+			Old: "\t\t\t\tif err := auth.VerifyBucketPolicy(policy, acct.Access, bucket, keyStart, auth.BypassGovernanceRetentionAction); err != nil {\n\t\t\t\t\tbypass = false\n\t\t\t\t}",
+			New: "\t\t\t\tif err := auth.VerifyBucketPolicy(policy, acct.Access, bucket, keyStart, auth.BypassGovernanceRetentionAction); err != nil {\n\t\t\t\t\tbypass = c.debug\n\t\t\t\t}", Expect: ".bypass"},
+		{Name: "PutObjectRetention handler: bypass kept when the policy cannot be read", Rule: "R-C10-5", File: "s3api/controllers/base.go",
+			Old: "\t\t\tpolicy, err := c.be.GetBucketPolicy(ctx.Context(), bucket)\n\t\t\tif err != nil {\n\t\t\t\tbypass = false\n\t\t\t} else {\n\t\t\t\tif err := auth.VerifyBucketPolicy(policy, acct.Access, bucket, keyStart, auth.BypassGovernanceRetentionAction)",
+			New: "\t\t\tpolicy, err := c.be.GetBucketPolicy(ctx.Context(), bucket)\n\t\t\tif err != nil {\n\t\t\t} else {\n\t\t\t\tif err := auth.VerifyBucketPolicy(policy, acct.Access, bucket, keyStart, auth.BypassGovernanceRetentionAction)", Expect: ".bypass"},
 		{Name: "PutBucketVersioning: lock test dropped for Suspended", Rule: "R-C10-3", File: "backend/posix/posix.go",
 			Old: "\t\t\tif lockStatus.ObjectLockEnabled == types.ObjectLockEnabledEnabled {\n\t\t\t\treturn s3err.GetAPIError(s3err.ErrSuspendedVersioningNotAllowed)\n\t\t\t}", New: "\t\t\t_ = lockStatus", Expect: "suspend-guard"},
 		{Name: "CheckObjectAccess: legal hold only logged", Rule: "R-C10-4", File: "auth/object_lock.go",
